@@ -426,3 +426,24 @@ PROPS["C19"] = {
          "preempts": {"quick": 1, "thorough": 2}, "params": {"quick": {"FAULTS": 2, "ONLINE": 1}, "thorough": {"FAULTS": 2, "ONLINE": 1}}},
     ],
 }
+
+PROPS["C13"] = {
+    "files": ["root/fakes.go", "root/c08_cache.go", "root/c01_routing.go", "root/c13_cancel.go", "region/fakes.go", "region/c13_queue.go"],
+    "claim": "Safety form of the property: in an adversarial environment (time standing still, servers silent, regions never coming "
+             "back, ZooKeeper never answering) a single request and a batch are blocked in each wait state — region unavailable, no "
+             "connection with an establisher that never finishes, queued on a silent server, back-off sleep, unknown region behind a "
+             "silent ZooKeeper (real lookupRegion / metaLookup / scanner / zkLookup), busy send queue of the real region client — and "
+             "return the context error (the batch: failed, every unanswered call marked) after the context of the request, of the batch "
+             "or of the calls (shared or distinct) is cancelled, with no further blocking.",
+    "outside": "the numeric delay; deadline expiry (only cancellation is explored; both close the same Done channel); goroutines blocked "
+               "inside the kernel (conn.Write); states reachable only through fault scripts longer than one fault",
+    "assumptions": ["a goroutine blocked inside the ZooKeeper client library is left behind (outside the client's control)"],
+    "jobs": [
+        {"name": "cancel_single", "steps": 60000, "pkg": "root", "entry": "VerifCancelSingle", "reach": ["cancelled"], "watchdog": 20,
+         "params": {"quick": {}, "thorough": {}}},
+        {"name": "cancel_batch", "steps": 60000, "pkg": "root", "entry": "VerifCancelBatch", "reach": ["cancelled", "call-context-cancelled"], "watchdog": 20,
+         "params": {"quick": {}, "thorough": {}}},
+        {"name": "cancel_send_queue", "pkg": "region", "entry": "VerifCancelSendQueue", "reach": ["cancelled"],
+         "params": {"quick": {}, "thorough": {}}},
+    ],
+}
